@@ -82,7 +82,12 @@ func makeEditedObjSized(r *Run, what string, big, huge bool) *simObj {
 		r.stat("mega_sections", 1)
 	} else if huge {
 		cfg.ND = false
-		doc = GenBulkDoc(c, 150000+c.Intn("hugesz", 350000), []int{FamDenseArrays, FamZeros, FamNumbers, FamStrings, FamMixed, FamWide, FamBigMembers, FamBigMembers}).B
+		if c.Intn("hugeatoms", 4) == 0 {
+			// more than 65536 tags over a value section well below 64 KiB
+			doc = GenBulkDoc(c, 340000+c.Intn("atomsz", 300000), []int{FamAtoms}).B
+		} else {
+			doc = GenBulkDoc(c, 150000+c.Intn("hugesz", 350000), []int{FamDenseArrays, FamZeros, FamNumbers, FamStrings, FamMixed, FamWide, FamBigMembers, FamBigMembers}).B
+		}
 		r.stat("huge_tapes", 1)
 	} else {
 		doc = genHistDoc(r, cfg.ND, big)
